@@ -51,6 +51,7 @@ func (c *Channel) read() {
 	}()
 
 	for {
+		verifhook.Point("chan.read.loop!")
 		select {
 		case <-c.done:
 			return
